@@ -68,6 +68,8 @@ def handlesValid (p : P) : Op → Bool
   | .libSyms lib _ => decide (lib < p.libs.all.length)
   | .addMapping pi lib _ _ _ => decide (pi < p.processes.length) && decide (lib < p.libs.all.length)
   | .removeMapping pi _ => decide (pi < p.processes.length)
+  | .addKernelMapping lib _ _ _ => decide (lib < p.libs.all.length)
+  | .removeKernelMapping _ => true
   | .clearMappings pi => decide (pi < p.processes.length)
   | .string _ => true
   | .category _ _ => true
